@@ -43,6 +43,23 @@ fn main() {
             }
         }
     }
+    if prog == "pack" && args.get(1).is_some_and(|a| a == "build") {
+        // packaged buildpack directories handed over with --buildpack: their name, what else was packaged next to
+        // them, and the dependency uris of the packaged package.toml
+        let mut bps = vec![];
+        for i in 0..args.len() {
+            if args[i] == "--buildpack" {
+                if let Some(p) = args.get(i + 1).map(Path::new).filter(|p| p.is_dir()) {
+                    let mut sib: Vec<String> = p.parent().and_then(|d| std::fs::read_dir(d).ok()).map(|rd| rd.flatten().map(|e| e.file_name().to_string_lossy().to_string()).collect()).unwrap_or_default();
+                    sib.sort();
+                    bps.push(serde_json::json!({"name": p.file_name().map(|n| n.to_string_lossy().to_string()), "siblings": sib,
+                        "has_descriptor": p.join("buildpack.toml").is_file(),
+                        "package_toml": std::fs::read_to_string(p.join("package.toml")).ok()}));
+                }
+            }
+        }
+        entry["bp_dirs"] = serde_json::json!(bps);
+    }
     let mut f = std::fs::OpenOptions::new().create(true).append(true).open(state.join("log.jsonl")).unwrap();
     writeln!(f, "{}", serde_json::to_string(&entry).unwrap()).unwrap();
 
